@@ -16,6 +16,7 @@ Definition P (k : N) (v : list N) : skey * svec := (k, zs v).
 (** one stream in one collection: start rank, time rank (0 0 when not reported), points *)
 Definition O (s t : N) (p : points) : sobs := (s, t, p).
 Definition KH (b : list N) : ikind := KHist (zs b).
+Definition KE (u : N) : ikind := KExpo (Z.of_N u).
 
 Inductive case :=
 | CHist (kinds : list ikind) (h : list op) (obs : list (list sobs * list sobs)).
